@@ -14,7 +14,7 @@ theorem Inv.frChange {s : State} (hI : Inv s) {h : Nat} {x : FrSt} {fx : Nat →
   have hI' := hI
   obtain ⟨kindC, kindF, lockOk, frWait, freshOk, freshUniq, freshVer, freshVerT, freshNode, wFreeTaken, preOk, postOk, ownOk, rsmTaken,
     freeTaken, pubNode, waiting, parked, listOk, scanOk, prevOk, placed, oScanOk, oNoneOk, aUnlockOk, aNextOk, aResumeOk, aFreeOk,
-    noRead, cTakeOk, allocUsed, noBad⟩ := hI
+    noRead, cTakeOk, cRemoveOk, allocUsed, noBad⟩ := hI
   constructor
   case kindC => exact kindC
   case kindF => exact kindF
@@ -46,6 +46,7 @@ theorem Inv.frChange {s : State} (hI : Inv s) {h : Nat} {x : FrSt} {fx : Nat →
   case aFreeOk => exact aFreeOk
   case noRead => exact noRead
   case cTakeOk => exact cTakeOk
+  case cRemoveOk => exact cRemoveOk
   case allocUsed => exact allocUsed
   case noBad => exact noBad
 
@@ -56,7 +57,7 @@ theorem Inv.wait {s : State} (hI : Inv s) {h f v : Nat} (hr : s.fr h = .running)
   have hI' := hI
   obtain ⟨kindC, kindF, lockOk, frWait, freshOk, freshUniq, freshVer, freshVerT, freshNode, wFreeTaken, preOk, postOk, ownOk, rsmTaken,
     freeTaken, pubNode, waiting, parked, listOk, scanOk, prevOk, placed, oScanOk, oNoneOk, aUnlockOk, aNextOk, aResumeOk, aFreeOk,
-    noRead, cTakeOk, allocUsed, noBad⟩ := hI
+    noRead, cTakeOk, cRemoveOk, allocUsed, noBad⟩ := hI
   constructor
   case kindC => inv_auto
   case kindF => inv_auto
@@ -103,6 +104,7 @@ theorem Inv.wait {s : State} (hI : Inv s) {h f v : Nat} (hr : s.fr h = .running)
   case aFreeOk => inv_auto
   case noRead => inv_auto
   case cTakeOk => inv_auto
+  case cRemoveOk => inv_auto
   case allocUsed => inv_auto
   case noBad => inv_auto
 
@@ -116,7 +118,7 @@ theorem Inv.wFree {s : State} (hI : Inv s) {h n : Nat} (hp : s.pc (.fr h) = .wFr
   have hsus := hI.frWait h (by simp [hp])
   obtain ⟨kindC, kindF, lockOk, frWait, freshOk, freshUniq, freshVer, freshVerT, freshNode, wFreeTaken, preOk, postOk, ownOk, rsmTaken,
     freeTaken, pubNode, waiting, parked, listOk, scanOk, prevOk, placed, oScanOk, oNoneOk, aUnlockOk, aNextOk, aResumeOk, aFreeOk,
-    noRead, cTakeOk, allocUsed, noBad⟩ := hI
+    noRead, cTakeOk, cRemoveOk, allocUsed, noBad⟩ := hI
   constructor
   case kindC => inv_auto
   case kindF => inv_auto
@@ -165,6 +167,7 @@ theorem Inv.wFree {s : State} (hI : Inv s) {h n : Nat} (hp : s.pc (.fr h) = .wFr
   case aFreeOk => inv_auto
   case noRead => inv_auto
   case cTakeOk => inv_auto
+  case cRemoveOk => inv_auto
   case allocUsed => inv_auto
   case noBad => inv_auto
 
